@@ -909,6 +909,8 @@ def eval_concrete(e, env):
     if k == "icmp":
         a, b = e[2], e[3]
         bits = expr_bits(a) or expr_bits(b)
+        if bits is None and (a == ("null",) or b == ("null",)):
+            bits = 64       # a pointer compared with NULL
         if bits is None:
             raise NoValue(e)
         va, vb = eval_concrete(a, env), eval_concrete(b, env)
